@@ -9,7 +9,9 @@ pub mod c08;
 pub mod c09;
 pub mod c13;
 pub mod c14;
+pub mod c12;
 pub mod c15;
+pub mod c16;
 pub mod c17;
 pub mod c18;
 pub mod c20;
@@ -23,9 +25,11 @@ pub fn lookup(prop: &str) -> Option<fn(&Ctx)> {
         "C07" => c07::run,
         "C08" => c08::run,
         "C09" => c09::run,
+        "C12" => c12::run,
         "C13" => c13::run,
         "C14" => c14::run,
         "C15" => c15::run,
+        "C16" => c16::run,
         "C17" => c17::run,
         "C18" => c18::run,
         "C20" => c20::run,
